@@ -987,7 +987,22 @@ impl Session {
                 }
             }
         }
+        // an entity may be gone again before it could be observed: the tracker still knows its uuid
+        for (pi, peer) in self.peers.iter().enumerate() {
+            if let Some(t) = verif::tracker_stats(peer.app.world()) {
+                for (e, u) in &t.entity_to_uuid {
+                    for (h, (owner, se)) in &self.script {
+                        if *owner == pi && se == e && !self.uuid_of.contains_key(h) && !self.handle_of.contains_key(u) {
+                            found.push((*h, *u));
+                        }
+                    }
+                }
+            }
+        }
         for (h, u) in found {
+            if self.uuid_of.contains_key(&h) || self.handle_of.contains_key(&u) {
+                continue;
+            }
             self.uuid_of.insert(h, u);
             self.handle_of.insert(u, h);
         }
